@@ -268,6 +268,30 @@ class CFG(object):
             return True
         return dst not in self.reach([src], avoid=via)
 
+    def conditions_at(self, n):
+        """[(test ast, outcome)]: branch outcomes that hold whenever `n` is reached - every path entry -> n leaves the
+        test through an edge with that outcome (for a test inside a loop: on its last evaluation before n only when
+        the other outcome cannot reach n at all)."""
+        nid = n.id if isinstance(n, Node) else n
+        out = []
+        for t in self.nodes:
+            if t.kind != 'test' or t.id == nid:
+                continue
+            for lab in (True, False):
+                other = [b for b, l in self.succ[t.id] if l is (not lab)]
+                if not other:
+                    continue
+                # n unreachable when the `lab` edges of t are removed  ==> every path to n takes t's `lab` outcome;
+                # additionally the other outcome must not lead to n without re-testing
+                r = self.reach([self.entry], edge_ok=lambda a, b, l, _t=t.id, _lab=lab: not (a == _t and l is _lab),
+                               include_src=True)
+                if nid in r:
+                    continue
+                if nid in self.reach(other, avoid={t.id}, include_src=True):
+                    continue
+                out.append((t.ast, lab))
+        return out
+
     def dominators(self):
         if self._dom is None:
             self._dom = self._domtree(self.entry.id, self.succ, self.pred)
@@ -343,3 +367,27 @@ class CFG(object):
 def build(funcinfo_or_node):
     node = getattr(funcinfo_or_node, 'node', funcinfo_or_node)
     return CFG(node)
+
+
+def atomic_facts(test, outcome):
+    """decompose a branch outcome into atomic (expression text, truth) facts:
+    not e / a and b (true) / a or b (false) / `not in`, `is not`, `!=` are normalised to their positive form"""
+    out = []
+
+    def go(e, val):
+        if isinstance(e, ast.UnaryOp) and isinstance(e.op, ast.Not):
+            go(e.operand, not val)
+        elif isinstance(e, ast.BoolOp) and isinstance(e.op, ast.And) and val:
+            for v in e.values:
+                go(v, True)
+        elif isinstance(e, ast.BoolOp) and isinstance(e.op, ast.Or) and not val:
+            for v in e.values:
+                go(v, False)
+        elif isinstance(e, ast.Compare) and len(e.ops) == 1 and isinstance(e.ops[0], (ast.NotIn, ast.IsNot, ast.NotEq)):
+            pos = {ast.NotIn: ast.In, ast.IsNot: ast.Is, ast.NotEq: ast.Eq}[type(e.ops[0])]()
+            pe = ast.Compare(left=e.left, ops=[pos], comparators=e.comparators)
+            out.append((ast.unparse(pe), not val, pe))
+        else:
+            out.append((ast.unparse(e), val, e))
+    go(test, outcome)
+    return out
